@@ -77,6 +77,7 @@ type c06Res struct {
 	d          *kit.Doc
 	zSel, mSel bool
 	nontrivial bool
+	ambiguousDocs int
 	g          *dGroup
 	zq         query.Q
 }
@@ -107,27 +108,57 @@ func c06Compare(s string, pool *c06Pool, cis []int) (res c06Res) {
 		return res
 	}
 	res.status = "agree"
+	readings := []*reading{nil, {regexNames: true}, {parsedASCIICase: true}, {regexNames: true, parsedASCIICase: true}}
+	evalAs := func(rd *reading, r *kit.Repo, d *kit.Doc) (m bool, msg, stack string, p bool) {
+		g.setReading(rd)
+		msg, stack, p = kit.Guard(func() { m = g.eval("auto", r, d) })
+		return
+	}
 	for _, ci := range cis {
 		c, ev := pool.corp[ci], pool.ev[ci]
 		sel := 0
 		for _, r := range c.Repos {
 			for _, d := range r.Docs {
-				var z, m bool
+				var z bool
 				if msg, stack, p := kit.Guard(func() { z = ev.Match(zq, r, d) }); p {
 					return c06Res{status: "ref-panic", detail: msg + "\n" + stack, g: g, zq: zq}
 				}
-				if msg, stack, p := kit.Guard(func() { m = g.eval("auto", r, d) }); p {
-					return c06Res{status: "doc-panic", detail: msg + "\n" + stack, g: g, zq: zq}
+				var m [4]bool
+				for i := 0; i < 2; i++ {
+					var msg, stack string
+					var p bool
+					if m[i], msg, stack, p = evalAs(readings[i], r, d); p {
+						return c06Res{status: "doc-panic", detail: msg + "\n" + stack, g: g, zq: zq}
+					}
 				}
 				if z {
 					sel++
 				}
-				if z != m && res.status == "agree" {
+				if m[0] != m[1] {
+					// the two documented readings of regex: differ on this document: not judged
+					res.ambiguousDocs++
+					continue
+				}
+				if z == m[0] {
+					continue
+				}
+				// a disagreement. Is it exactly the known case:auto finding?
+				for i := 2; i < 4; i++ {
+					m[i], _, _, _ = evalAs(readings[i], r, d)
+				}
+				g.setReading(nil)
+				known := z == m[2] || z == m[3]
+				switch {
+				case !known && res.status != "disagree":
 					res.status = "disagree"
-					res.ci, res.r, res.d, res.zSel, res.mSel = ci, r, d, z, m
+					res.ci, res.r, res.d, res.zSel, res.mSel = ci, r, d, z, m[0]
+				case known && res.status == "agree":
+					res.status = "known-case-auto"
+					res.ci, res.r, res.d, res.zSel, res.mSel = ci, r, d, z, m[0]
 				}
 			}
 		}
+		g.setReading(nil)
 		if sel > 0 && sel < pool.totals[ci] {
 			res.nontrivial = true
 		}
@@ -136,6 +167,46 @@ func c06Compare(s string, pool *c06Pool, cis []int) (res c06Res) {
 		}
 	}
 	return res
+}
+
+// caseAutoClass names the construct that makes the parsed-ASCII rule and the documented
+// rule of case:auto differ in g (priority: char-class, inline-flag, non-ascii-upper).
+func caseAutoClass(g *dGroup) string {
+	found := map[string]bool{}
+	var walk func(g *dGroup)
+	walk = func(g *dGroup) {
+		for _, cl := range g.clauses {
+			for _, e := range cl {
+				if e.kind == kGroup {
+					walk(e.group)
+					continue
+				}
+				switch {
+				case e.kind == kText, e.field == "content", e.field == "file", e.field == "regex", e.field == "sym":
+				default:
+					continue
+				}
+				if hasUpper(e.pat) == parsedASCIISensitive(e.pat) {
+					continue
+				}
+				switch {
+				case strings.Contains(e.pat, "(?i"):
+					found["inline-flag"] = true
+				case hasUpper(e.pat):
+					found["non-ascii-upper"] = true
+				default:
+					found["char-class"] = true
+				}
+			}
+		}
+	}
+	walk(g)
+	for _, c := range []string{"char-class", "inline-flag", "non-ascii-upper"} {
+		if found[c] {
+			return "case-auto/" + c
+		}
+	}
+	return "case-auto/unexplained"
 }
 
 func c06One(rec *kit.Rec, pool *c06Pool, s string) {
@@ -162,6 +233,9 @@ func c06One(rec *kit.Rec, pool *c06Pool, s string) {
 	}
 	// judged
 	rec.Count("judged", 1)
+	if res.ambiguousDocs > 0 {
+		rec.Count("documents_not_judged_regex_field_reading_ambiguous", int64(res.ambiguousDocs))
+	}
 	c06Coverage(rec, res.g, s)
 	rec.Case(res.g.skeleton(), res.nontrivial && res.status != "zoekt-rejects", func() any {
 		return map[string]any{"string": s, "zoekt": res.zq.String(), "documentation_reading": res.g.String()}
@@ -191,6 +265,12 @@ func c06One(rec *kit.Rec, pool *c06Pool, s string) {
 		rec.Violation("rejected/"+class,
 			fmt.Sprintf("query.Parse(%q) fails with %q but the string is in the documented grammar (reading: %s)", small, sr.detail, sr.g.String()), wit)
 		return
+	}
+	if res.status == "known-case-auto" {
+		// exactly the recorded finding: zoekt's answer is the documented reading with
+		// case:auto decided on the ASCII letters of the parsed regular expression
+		class = caseAutoClass(sr.g)
+		wit["explained_by"] = "documented reading with case:auto decided on the parsed regexp's ASCII letters"
 	}
 	wit["zoekt_query"] = sr.zq.String()
 	wit["repo"] = ix.Dump(&kit.Corpus{Repos: []*kit.Repo{sr.r}})
